@@ -21,7 +21,7 @@
 //	x.(*net.TCPConn)   (configured)  -> x.(vs.HalfCloser)
 //	statements reading a configured racy field -> preceded by vs.Touch("field")
 //
-// A construct that the profile says must be present and is not found, or a channel construct that is left over after
+// A construct kind that the profile says must be present in a file and is not found at all (Min below), or a channel construct that is left over after
 // the rewrite, makes the generation fail (exit 2): the check then reports a build error, never a silent pass.
 package main
 
@@ -73,16 +73,16 @@ var profile = []pkgCfg{
 					"operation": {"c.err"},
 					"Close":     {"c.wire.readExit", "c.wire.writeExit"},
 				},
-				Min: map[string]int{"go": 3, "select": 2, "send": 6, "close": 1, "rangechan": 1, "maprange": 1, "touch:operation:c.err": 1, "touch:Close:c.wire.readExit": 1, "touch:Close:c.wire.writeExit": 1, "time": 1},
+				Min: map[string]int{"go": 1, "select": 1, "send": 1, "close": 1, "rangechan": 1, "touch:operation:c.err": 1, "touch:Close:c.wire.readExit": 1, "touch:Close:c.wire.writeExit": 1, "time": 1},
 			},
 			"wire.go":   {HalfClose: 2, Min: map[string]int{"halfclose": 2, "sync": 1}},
-			"server.go": {Min: map[string]int{"go": 1, "select": 1, "send": 3, "time": 1}},
+			"server.go": {Min: map[string]int{"go": 1, "select": 1, "send": 1, "time": 1}},
 		},
 	},
 	{
 		Dir: "backend/remote", Chan: true, Sync: true, Time: true, Accessor: "edremote",
 		Files: map[string]fileCfg{
-			"remote.go": {Min: map[string]int{"go": 1, "select": 1, "send": 3, "time": 1}},
+			"remote.go": {Min: map[string]int{"go": 1, "select": 1, "send": 1, "time": 1}},
 		},
 	},
 	{
@@ -579,12 +579,17 @@ func main() {
 	repo := flag.String("repo", "/repo", "")
 	verif := flag.String("verif", "/verif", "")
 	out := flag.String("out", "/verif/build/ovl-d", "")
+	srcRoot := flag.String("src", "", "read the package sources from this copy of the tree instead of -repo (the overlay still maps onto -repo); used to try a seeded change without touching /repo")
 	flag.Parse()
+	if *srcRoot == "" {
+		*srcRoot = *repo
+	}
 	replace := map[string]string{}
 	summary := map[string]map[string]int{}
 	for _, pc := range profile {
 		dir := filepath.Join(*repo, pc.Dir)
-		ents, err := os.ReadDir(dir)
+		srcDir := filepath.Join(*srcRoot, pc.Dir)
+		ents, err := os.ReadDir(srcDir)
 		if err != nil {
 			die("package %s: %v", pc.Dir, err)
 		}
@@ -595,7 +600,7 @@ func main() {
 				continue
 			}
 			seen[n] = true
-			src, err := os.ReadFile(filepath.Join(dir, n))
+			src, err := os.ReadFile(filepath.Join(srcDir, n))
 			if err != nil {
 				die("%v", err)
 			}
